@@ -59,3 +59,66 @@ Proof.
   unfold lenN. rewrite nat_N_Z, Nat2Z.id. apply entries_rt. exact Hk.
 Qed.
 End Reg.
+
+(* ------------------------------------------------------------------ after the join the bot holds the server's registries *)
+From GoMC Require Import Proofs.C19_net Proofs.C19_gate.
+Section JoinRegs.
+Variable offline_uuid : list N -> list N.
+Variable V : Type.
+Variable nbt_enc : V -> list N.
+Variable nbt_dec : dec V.
+Hypothesis nbt_robust : robust nbt_dec.
+Hypothesis nbt_inverse : forall v rest, run_flat nbt_dec (nbt_enc v ++ rest) = FOk v rest.
+
+(* the server's Configurations.Registries: (registry id, entries (key, value)) per tagged field *)
+Definition server_regs := list (list N * list (list N * V)).
+(* what AcceptConfig puts on the wire for them *)
+Definition wire_of (rs : server_regs) : list (list N * list N) :=
+  map (fun r => (fst r, reg_write (images V nbt_enc (snd r)))) rs.
+(* the same registries as the bot stores them: values as their NBT images *)
+Definition held_of (rs : server_regs) : list (list N * list (list N * list N)) :=
+  map (fun r => (fst r, images V nbt_enc (snd r))) rs.
+(* the bot's c.Registries.Registry(id).ReadFrom: known ids are read with Registry.ReadFrom, which must
+   consume the whole content *)
+Definition bot_reads (bc : bcfg) (known : list N -> bool) : Prop :=
+  forall rid content, bc_registry bc rid content =
+    if known rid then
+      Some match run_flat (reg_read V nbt_dec) content with
+           | FOk es [] => Some (images V nbt_enc es)
+           | _ => None
+           end
+    else None.
+Definition regs_ok (known : list N -> bool) (rs : server_regs) : Prop :=
+  Forall (fun r => known (fst r) = true /\ keys_fit V (snd r) /\ (lenN (snd r) < 2^31)%N) rs.
+
+Lemma decoded_wire bc known r :
+  bot_reads bc known -> known (fst r) = true -> keys_fit V (snd r) -> (lenN (snd r) < 2^31)%N ->
+  bc_registry bc (fst r) (reg_write (images V nbt_enc (snd r))) = Some (Some (images V nbt_enc (snd r))).
+Proof.
+  intros Hb Hk Hf Hn. rewrite Hb, Hk.
+  pose proof (registry_roundtrip V nbt_enc nbt_dec nbt_robust nbt_inverse (snd r) [] Hf Hn) as R.
+  rewrite app_nil_r in R. rewrite R. reflexivity.
+Qed.
+
+Theorem join_registries : forall (bc : bcfg) (sc : scfg) (known : list N -> bool) (rs : server_regs),
+  sc_cfg sc = CfgStock -> sc_registries sc = wire_of rs -> bot_reads bc known -> regs_ok known rs ->
+  accepts offline_uuid sc (bc_name bc) ->
+  exists (f : sys bot srv) (n : nat),
+    joined_state offline_uuid bc sc f /\ every_interleaving offline_uuid bc sc (join_init bc) f n /\
+    b_regs (x_b f) = held_of rs.
+Proof.
+  intros bc sc known rs Hc Hw Hb Hok Ha.
+  assert (Hr : regs_readable bc (regs_of sc)).
+  { unfold regs_of. rewrite Hc, Hw. unfold wire_of. apply Forall_forall. intros x Hx.
+    apply in_map_iff in Hx. destruct Hx as [r [<- Hin]]. cbn [fst snd].
+    destruct (proj1 (Forall_forall _ _) Hok r Hin) as [A [B0 C]].
+    eexists. apply (decoded_wire bc known r Hb A B0 C). }
+  destruct (join_all offline_uuid bc sc Ha Hr) as [f [n [J E]]].
+  exists f, n. split; [exact J|]. split; [exact E|].
+  destruct J as [_ [_ [_ [_ [_ [_ [_ [_ [_ [_ [_ [_ [_ R]]]]]]]]]]]]].
+  rewrite R. unfold bot_regs_after, regs_of. rewrite Hc, Hw. unfold wire_of, held_of. rewrite map_map.
+  apply map_ext_in. intros r Hin. cbn [fst snd].
+  destruct (proj1 (Forall_forall _ _) Hok r Hin) as [A [B0 C]].
+  unfold decoded. cbn [fst snd]. rewrite (decoded_wire bc known r Hb A B0 C). reflexivity.
+Qed.
+End JoinRegs.
